@@ -83,6 +83,9 @@ Clause(s, line) ==
              exp == [s EXCEPT !.tracks = [i \in 1..Len(s.tracks) |->
                          IF i \in sel THEN AddOutcome(s.tracks[i], Arg(line.in.arg), Quarter)[1] ELSE s.tracks[i]]] IN
          IF line.ok /\ ObsState(line.obs) = exp THEN "ok" ELSE "note-reaches-exactly-the-selected-tracks"
+    [] line.op = "comp_direct" ->     \* an eighth note added directly to one track of the composition
+         LET exp == [s EXCEPT !.tracks[line.in.track] = AddOutcome(@, Arg(line.in.arg), [b |-> 5, d |-> 0, r |-> <<1, 1>>])[1]] IN
+         IF line.ok /\ ObsState(line.obs) = exp THEN "ok" ELSE "direct-track-addition"
     [] line.op = "comp_query" ->
          LET o == line.out IN
          IF ~line.ok THEN "query-raised"
